@@ -1,4 +1,4 @@
-import TensorModel.Excl
+import TensorModel.Ext.All
 /-! Runs one program under M and S side by side and produces the output lines of the protocol. -/
 namespace TM
 
@@ -121,10 +121,13 @@ def runProgram (line : String) : List String :=
       | s :: rest, acc =>
         let toks := (s.splitOn " ").filter (· != "")
         if (toks.head?.getD "").startsWith "vset=" then go ps ss tn (i + 1) rest acc else
-        let (tags, bufScope) := exclTags ps toks
+        let fam := families.find? (fun f => f.keys.contains (toks.head?.getD ""))
+        let (tags, bufScope) := match fam with | some f => f.excl ps toks | none => exclTags ps toks
         let target := stepTarget ps toks
-        let (ps', mo) := stepM ps i toks
-        let so := stepS ps ps' ss i toks (mResClass mo)
+        let (ps', mo) := match fam with | some f => f.stepM ps i toks | none => stepM ps i toks
+        let so := match fam with
+          | some f => f.stepS ps ps' ss i toks (mResClass mo)
+          | none => stepS ps ps' ss i toks (mResClass mo)
         -- defects visible on the object a step creates
         let postTags : List String :=
           if ps'.ds.size > ps.ds.size then
@@ -153,7 +156,7 @@ def runProgram (line : String) : List String :=
         -- an operation taints every object it names with the tags it raises
         let tn := if tags.isEmpty then tn else
           (stepObjects ps toks).foldl (fun tn id => { tn with obj := addAt tn.obj id tags }) tn
-        let writes := ["memset", "zero", "setat", "copy", "copyto", "transpose", "reshape", "bin", "un"].contains (toks.head?.getD "")
+        let writes := ["memset", "zero", "setat", "copy", "copyto", "transpose", "reshape", "bin", "un"].contains (toks.head?.getD "") || fam.isSome
         let tn := if writes then
             let objs := stepObjects ps toks
             let all := (objs.flatMap (fun id => tn.ofObj ps id)).eraseDups
